@@ -196,10 +196,10 @@ CLAIMS['C06'] = (
     're-executed steps after modifying each source file and for an immediately repeated build; every product that '
     'consumes another step\'s product built alone from the configured tree (its steps\' commands must equal those of '
     'the full build: a command may not depend on the goal it was reached through); and every compile_commands.json entry against the process '
-    'the backend started for that output (plus: every compile/link/copy step has an entry). Plus all 27 Java programs '
-    '(1-2 library jars, optionally chained, consumed through libs= in every order by an executable, library or '
+    'the backend started for that output (plus: every compile/link/copy step has an entry). Plus 33 Java programs '
+    '(1-2 library jars, optionally chained, or a pre-built jar of the source tree, consumed through libs= in every order by an executable, library or '
     'object_file) built with the real javac/jar: per product the real and the order-only prerequisites of Makefile '
-    'and build.ninja are the same sets, and the products re-made after editing each source agree (2 programs quick, '
+    'and build.ninja are the same sets, and the products re-made after editing each source agree (3 programs quick, '
     'all thorough).',
     'trusted: refninja; the documented Ninja-only colour flag is removed before comparing',
     'DESIGN.md §6 C06')
